@@ -12,7 +12,10 @@ A case is plain JSON:
 """
 from __future__ import annotations
 
+import zlib
+
 from antismash.common.secmet.features import SubRegion
+from antismash.common.secmet.features.protocluster import Protocluster
 from antismash.common.secmet.locations import CompoundLocation, FeatureLocation
 from antismash.detection.sideloader.data_structures import ProtoclusterAnnotation, SubRegionAnnotation, Tool
 
@@ -134,6 +137,10 @@ def gen_case(rng, force_circular=None) -> dict:
                     left = free // 2
                     right = free - left - 1
                     extent = arc(cs - left, core_len + left + right)
+                    if (cs + core_len) % 4 == 0:
+                        # ... or, as Record.extend_location gives it once the two extensions meet, the whole
+                        # record in one piece (the Protocluster constructor refuses that around such a core)
+                        extent = [[0, length]]
                 else:
                     extent = [[0, length]]
             else:
@@ -197,8 +204,16 @@ def make_protocluster(spec: dict, length: int, circular: bool):
         if [list(p) for p in got] != [list(p) for p in spec["extent"]]:
             raise ValueError(f"sideloader built {got} where the harness planned {spec['extent']}")
         return proto
-    return W.make_protocluster(spec["core"], spec["extent"], spec["product"], cutoff=10,
-                               neighbourhood=max(spec["left"], spec["right"]))
+    proto = W.make_protocluster(spec["core"], spec["extent"], spec["product"], cutoff=10,
+                                neighbourhood=max(spec["left"], spec["right"]))
+    if zlib.crc32(spec["product"].encode() + str(spec["core"]).encode()) % 6 == 0:
+        # a core on the reverse strand (parts in reading order), as files and the API may hand it over
+        parts = [FeatureLocation(s, e, -1) for s, e in spec["core"]]
+        parts.reverse()
+        core = parts[0] if len(parts) == 1 else CompoundLocation(parts)
+        proto = Protocluster(core, proto.location, proto.tool, proto.product, proto.cutoff, proto.neighbourhood_range,
+                             proto.detection_rule, product_category=proto.product_category)
+    return proto
 
 
 def make_subregion(spec: dict, length: int, circular: bool):
